@@ -56,12 +56,12 @@ PROPS = {
                 design="DESIGN.md section 4 C16",
                 trusted=["bin/gen.py + `vharness dump`: regeneration of coq/gen/GenTables.v from the running code",
                          "model/Spec.v: the International Tables entries as typed in"]),
-    "C05": dict(props_file="props/C05.v", engines=[("opt", dict(focus="C05", quick=250, thorough=6000))],
+    "C05": dict(props_file="props/C05.v", engines=[("opt", dict(focus="C05", quick=250, thorough=6000, coqeval_quick=8, coqeval_thorough=60))],
                 design="DESIGN.md section 4 C05",
                 assumptions=["libm: exp(-inf) = 0 (premise of the binary64 theorems; tested by the harness on every run)",
                              "thresholds drawn by rand's gen::<f64>() are >= 0",
                              "kt_ratio, when given, lies in [0,1] (documented meaning of the option)"]),
-    "C06": dict(props_file="props/C06.v", engines=[("opt", dict(focus="C06", quick=250, thorough=6000))],
+    "C06": dict(props_file="props/C06.v", engines=[("opt", dict(focus="C06", quick=250, thorough=6000, coqeval_quick=8, coqeval_thorough=60))],
                 design="DESIGN.md section 4 C06"),
     "C07": dict(props_file="props/C07.v", engines=[("opt", dict(focus="C07", quick=250, thorough=6000))],
                 design="DESIGN.md section 4 C07"),
@@ -129,7 +129,7 @@ def read_specs(path):
     return out
 
 
-def opt_run(prop, specs, tag):
+def opt_run(prop, specs, tag, coqeval=0):
     """Run the implementation on the spec lines, then the model on the recorded cases."""
     wd = workdir(prop)
     sp = os.path.join(wd, "specs_%s.txt" % tag)
@@ -170,6 +170,7 @@ def opt_run(prop, specs, tag):
     def run_shard(p):
         return sh([DRIVER, "opt", p], timeout=3000)
 
+    verdicts = {}
     with concurrent.futures.ThreadPoolExecutor(max_workers=16) as ex:
         for rc, out in ex.map(run_shard, shards):
             if rc != 0:
@@ -178,10 +179,25 @@ def opt_run(prop, specs, tag):
             for l in out.split("\n"):
                 if l.startswith("R "):
                     spec, _, verdict = l[2:].partition(" | ")
+                    verdicts[spec] = verdict
                     if verdict.startswith("OK"):
                         res["ok"] += 1
                     else:
                         res["mismatches"].append(dict(engine="opt", case=spec, what="model/implementation disagree: " + verdict))
+    # zero-temperature runs replayed by the model INSIDE Coq (no extraction, no OCaml)
+    if coqeval and shards:
+        import eng_coqeval
+        tot = dict(cases=0, agree=0, problems=[])
+        for p in shards:
+            if tot["cases"] >= coqeval:
+                break
+            r = eng_coqeval.run_opt(prop, p, min(3, coqeval - tot["cases"]), verdicts)
+            tot["cases"] += r["cases"]
+            tot["agree"] += r["agree"]
+            tot["problems"] += r["problems"]
+        res["coq_eval"] = tot
+        for pr in tot["problems"]:
+            res["mismatches"].append(dict(engine="opt", case="(in-Coq evaluation)", what=pr))
     for p in shards:
         os.remove(p)
     return res
@@ -193,7 +209,7 @@ def opt_engine(prop, conf, params, tier, seed, broken_gate):
     corpus = read_specs(os.path.join(ROOT, "corpus", "opt.txt"))
     rc, out = sh([HARNESS, "opt-gen", "--focus", focus, "--seed", str(seed), "--count", str(count)], timeout=600)
     specs = corpus + [l for l in out.split("\n") if l.startswith("opt ")]
-    r = opt_run(prop, specs, "main")
+    r = opt_run(prop, specs, "main", coqeval=params.get("coqeval_" + tier, 0))
     searched = len(specs)
     relevant = [f for f in r["findings"] if prop in f["properties"]]
     if (r["mismatches"] or broken_gate) and not relevant:
@@ -235,7 +251,8 @@ def opt_engine(prop, conf, params, tier, seed, broken_gate):
         mismatches=r["mismatches"],
         distribution=dist,
         correspondence=dict(engine="opt", cases=len(r["metas"]), bit_exact_agreement=r["ok"],
-                            disagreements=len(r["mismatches"]), strength="bit-exact parameter vector at every score() call, final state, outcome"),
+                            disagreements=len(r["mismatches"]), strength="bit-exact parameter vector at every score() call, final state, outcome",
+                            evaluated_inside_coq=r.get("coq_eval", {}).get("cases", 0), inside_coq_agree=r.get("coq_eval", {}).get("agree", 0)),
         searched=searched,
         notes=[],
     )
